@@ -40,6 +40,9 @@ for name in sorted(os.listdir(inc)):
                       'tests_run': conf['tests_run'], 'new_test_failures': conf['new_failures'],
                       'flaky_under_load_passed_alone': conf.get('flaky_under_load_passed_alone', [])},
         'detected_by': {p: ('VIOLATION reported' if v['exit'] == 1 else 'not detected (exit %s)' % v['exit']) for p, v in detected.items()},
+        'detection_measured': ('tools_seed_eval.py detect: check.py <property> --tier quick against a scratch copy of the repository sources with '
+                               'patch.diff applied, run from a snapshot of /verif at commit 396ea0c' if detected else
+                               'not run: the property this change targets is not claimed (MANIFEST.not_applicable) and no other check was tried'),
         'first_reports': {p: v['what'] for p, v in detected.items() if v['what']},
     }
     json.dump(meta, open(os.path.join(dst, 'meta.json'), 'w'), indent=1)
